@@ -38,6 +38,7 @@ type Scenario struct {
 	CancelAfterMs []int // per session: cancel the context after this many ms (0 = when all claims are idle)
 	CloseInSession int  // call group.Close() during this session instead of cancelling (-1 never)
 	Retention  int      // Consumer.Offsets.Retention in hours (0 = unset)
+	CleanupMarks bool   // the handler marks, in Cleanup, everything its claims were delivered (documented use of Cleanup)
 	Follower   bool     // another member leads the group; this member gets FollowerParts
 	FollowerParts []int32
 }
@@ -123,6 +124,10 @@ func Gen(seed uint64, focus string) *Scenario {
 	if r.Chance(1, 4) {
 		sc.Retention = r.Pick(1, 24)
 	}
+	sc.CleanupMarks = r.Chance(1, 3) // claims only collect; everything delivered is marked in Cleanup
+	if sc.CleanupMarks && r.Bool() {
+		sc.Script = map[string]map[int]sarama.KError{}
+	}
 	if r.Chance(1, 4) {
 		sc.Follower = true
 		for p := int32(0); p < sc.Partitions; p++ {
@@ -153,7 +158,7 @@ func (sc *Scenario) String() string {
 	}
 	return fmt.Sprintf("seed=%d brokers=%d parts=%d log=%v stored=%v ghosts=%d strat=%s oldest=%v auto=%v retry=%d ver=%s script=[%s] sessions=%d beh=%v early=%v cancel=%v closeIn=%d",
 		sc.Seed, sc.Brokers, sc.Partitions, sc.LogLen, sc.Stored, sc.Ghosts, sc.Strategy, sc.InitialOldest, sc.AutoCommit, sc.RetryMax, sc.Version,
-		strings.Join(fs, ","), sc.Sessions, sc.Behaviour, sc.EarlyAfter, sc.CancelAfterMs, sc.CloseInSession) + fmt.Sprintf(" retention=%dh follower=%v/%v", sc.Retention, sc.Follower, sc.FollowerParts)
+		strings.Join(fs, ","), sc.Sessions, sc.Behaviour, sc.EarlyAfter, sc.CancelAfterMs, sc.CloseInSession) + fmt.Sprintf(" retention=%dh follower=%v/%v cleanupMarks=%v", sc.Retention, sc.Follower, sc.FollowerParts, sc.CleanupMarks)
 }
 
 type handler struct {
@@ -167,6 +172,18 @@ type handler struct {
 	sc      *Scenario
 	started int
 	idleCnt int
+	maxDelivered map[int32]int64
+}
+
+func (h *handler) delivered(p int32, off int64) {
+	h.mu.Lock()
+	if h.maxDelivered == nil {
+		h.maxDelivered = map[int32]int64{}
+	}
+	if cur, ok := h.maxDelivered[p]; !ok || off > cur {
+		h.maxDelivered[p] = off
+	}
+	h.mu.Unlock()
 }
 
 func (h *handler) ev(e HEvent) {
@@ -183,6 +200,18 @@ func (h *handler) Setup(s sarama.ConsumerGroupSession) error {
 }
 func (h *handler) Cleanup(s sarama.ConsumerGroupSession) error {
 	h.ev(HEvent{Kind: "cleanup", Member: s.MemberID(), Gen: s.GenerationID()})
+	if h.sc != nil && h.sc.CleanupMarks {
+		h.mu.Lock()
+		md := map[int32]int64{}
+		for p, o := range h.maxDelivered {
+			md[p] = o
+		}
+		h.mu.Unlock()
+		for p, o := range md {
+			s.MarkOffset("t", p, o+1, "cleanup")
+			h.ev(HEvent{Kind: "cleanup-mark", P: p, Off: o + 1})
+		}
+	}
 	return nil
 }
 func (h *handler) ConsumeClaim(s sarama.ConsumerGroupSession, c sarama.ConsumerGroupClaim) error {
@@ -196,8 +225,9 @@ func (h *handler) ConsumeClaim(s sarama.ConsumerGroupSession, c sarama.ConsumerG
 				return nil
 			}
 			h.ev(HEvent{Kind: "msg", P: m.Partition, Off: m.Offset})
+			h.delivered(m.Partition, m.Offset)
 			n++
-			if !(h.beh == "prefix" && n > h.early) {
+			if !(h.beh == "prefix" && n > h.early) && !(h.sc != nil && h.sc.CleanupMarks) {
 				s.MarkMessage(m, fmt.Sprintf("s%d", h.session))
 			}
 			if h.beh == "early" && n >= h.early {
@@ -214,7 +244,10 @@ func (h *handler) ConsumeClaim(s sarama.ConsumerGroupSession, c sarama.ConsumerG
 					return nil
 				}
 				h.ev(HEvent{Kind: "msg", P: m.Partition, Off: m.Offset})
-				s.MarkMessage(m, fmt.Sprintf("s%d", h.session))
+				h.delivered(m.Partition, m.Offset)
+				if !(h.sc != nil && h.sc.CleanupMarks) {
+					s.MarkMessage(m, fmt.Sprintf("s%d", h.session))
+				}
 			case <-s.Context().Done():
 				for range c.Messages() {
 				}
@@ -500,6 +533,7 @@ func Check(res *Result) []Fail {
 	}
 	sessionStore := map[int32]int64{} // store as of the last successful sync (what the session's offset manager fetched at the latest)
 	lastCleanupSeq := -1
+	cleanupMarks := map[int32]int64{}
 	commitsAfterCleanup := 0
 	marked := false
 	for _, it := range items {
@@ -587,10 +621,21 @@ func Check(res *Result) []Fail {
 			marked = true
 		case "cleanup":
 			lastCleanupSeq = e.Seq
+		case "cleanup-mark":
+			cleanupMarks[e.P] = e.Off
 		case "return":
-			if sc.AutoCommit && marked && lastCleanupSeq >= 0 && commitsAfterCleanup == 0 && e.Err == "" {
-				// a final commit is due only if something is dirty; checked through the store below
+			_ = marked
+			// "Cleanup once; then, with auto-commit on, a final commit of the marked offsets; only then does Consume return":
+			// what the handler marked in Cleanup is in the coordinator's store when Consume returns (scenarios without
+			// scripted coordinator faults, where nothing can make the final commit fail)
+			if sc.AutoCommit && len(sc.Script) == 0 && e.Err == "" {
+				for p, o := range cleanupMarks {
+					if store[p] < o {
+						add("C07:cleanup-mark-not-committed", "session %d: Cleanup marked partition %d at %d, the coordinator holds %d when Consume returns", e.Session, p, o, store[p])
+					}
+				}
 			}
+			cleanupMarks = map[int32]int64{}
 		}
 	}
 	// nothing skipped across sessions: per partition the delivered offsets, in order of delivery, never jump forward over an undelivered offset
